@@ -1293,7 +1293,7 @@ static void damage_case(uint64_t idx, void *arg)
 int main(int argc, char **argv)
 {
         mc_init(argc, argv, "C07");
-        mc_set_budget(120, 1200);
+        mc_set_budget(300, 1200);
         mc_meta("level", "model_checking");
         mc_meta("technique", "explicit-state search with state merging over all partitions of a stream into feed/coroutine calls on the real demultiplexer (snapshot of the flat context, dead bytes poisoned, canonical hashing); fault enumeration at every byte for the recovery clause");
         mc_meta("rule", "(a) node = (stream position, canonical demux context, count+hash of frames delivered); one transition per node and chunk length 1..n-pos, chunk in an exactly sized heap block; a (stream, interface) search is non-trivial when its one-call run delivers >= 2 frames and is counted as distinct when all partitions agree. (b) one case per (base stream, byte position, damage kind) that changes the stream, each run whole / in small buffers / through the coroutine; distinct = distinct damaged byte streams; TS packet-level damage (repeated packet, lost packet, PES_packet_length) and the undamaged TS base streams are re-run with the continuity counters of the PID shifted by 1..15 and must deliver the same frames");
